@@ -786,6 +786,11 @@ subroutine solve_t(initial_values, t, min_iter, max_iter, tol, offset, convergen
      return
   end if
 
+  ! No error so far: this is also the result if no iteration runs at all
+  ! (`max_iter` < 1), which then reports a failure to converge after 0
+  ! iterations, as the Python version does
+  error_code = 0
+
   ! Solve
   do iteration = 1, max_iter
 
